@@ -51,6 +51,7 @@ def check(rep, model, tier):
             rep.compare('DEF', f'{centre}:{col}', site, cols[col], sd[col], ctx.unmodelled)
             n_inst += 1
     standalone(rep, model)
+    rename_def(rep, model)
     wiring(rep, model)
     rep.floor('shape definitions compared', n_inst, 26)
 
@@ -84,6 +85,35 @@ def wiring(rep, model):
             else:
                 rep.ok('BAND-WIRING', inst, evs[0]['where'] or site, found='arguments passed through; band-amplitude filter at its documented default')
     common.args_intact(rep, model, ['limit_df', 'drop_samples_df', 'get_extrema_df', 'epoch_df'], rule='TABLE-INTACT', why='a returned table must keep describing the original signal')
+
+
+def rename_def(rep, model):
+    """rename_extrema_df, the documented conversion of a peak-centred table of the negated signal into the trough-centred table of the signal, on its own"""
+    rep.rule('RENAME-DEF', 'rename_extrema_df(centre, table, return_samples) called directly: for "trough" every peak/trough and rise/decay column is swapped, volt_peak / volt_trough are '
+                           'negated and time_rdsym / time_ptsym become 1 - x, whether or not the table carries sample_ columns (they are swapped too when it does); for "peak" the table '
+                           'is returned as it is')
+    f = model.find('rename_extrema_df')
+    site = f'{f.path}:{f.node.lineno} rename_extrema_df'
+    samples = list(E.SAMPLE_COLS['peak'].values())
+    for with_samples in (True, False):
+        names = list(E.SHAPE_COLS) + (samples if with_samples else [])
+        tab = E.abstract_table('F', names)
+        src = dict(tab[1])
+        for centre in ('trough', 'peak'):
+            r, ctx = E.run(model, f.qual, {f.params[0]: C(centre), f.params[1]: tab, f.params[2]: C(with_samples)})
+            if centre == 'peak':
+                want = tab
+            else:
+                cols = {}
+                for c in names:
+                    v = src[c]
+                    if c in ('volt_peak', 'volt_trough'):
+                        v = T.neg(v)
+                    elif c in ('time_rdsym', 'time_ptsym'):
+                        v = T.sub(C(1), v)
+                    cols[E.mu(c)] = v
+                want = E.table_of(cols, tab[2])
+            rep.compare('RENAME-DEF', f'{centre}:{"with" if with_samples else "without"} sample columns', site, r, want, ctx.unmodelled)
 
 
 def standalone(rep, model):
